@@ -394,6 +394,14 @@ fn time_text(shape: u64, n: usize) -> String {
             }
             s.push_str("ENDEXT\n");
         }
+        13 => {
+            // many via placements in one LAYER block of an obstruction
+            s.push_str("MACRO vias OBS LAYER met1 ;\n");
+            for i in 0..n / 4 {
+                s.push_str(&format!("VIA {} {} v{} ;\n", i, i % 7, i % 3));
+            }
+            s.push_str("END END vias\n");
+        }
         12 => {
             // one very long string value of two-byte characters (far beyond 64 KiB in the longer text)
             s.push_str("MACRO lng PROPERTY note \"");
@@ -422,11 +430,11 @@ fn time_text(shape: u64, n: usize) -> String {
     s
 }
 fn time_case(src: &mut Src, ctx: &mut Ctx) -> Result<(), String> {
-    let shape = src.u64() % 13;
+    let shape = src.u64() % 14;
     let n = 10_000usize;
     let (a, b) = (time_text(shape, n), time_text(shape, 16 * n));
     ctx.nontrivial(hash_of(&shape));
-    let what = ["many macros", "many pins in one macro", "many rectangles in one block", "many property pairs in one statement", "many sites", "long comment, long name, long polygon", "many PROPERTY statements in one macro", "many PROPERTY statements in one pin", "many LAYER blocks in one OBS", "many property definitions", "many words of an extension block on one line", "many words of an extension block, one per line", "one very long non-ASCII string value"][shape as usize];
+    let what = ["many macros", "many pins in one macro", "many rectangles in one block", "many property pairs in one statement", "many sites", "long comment, long name, long polygon", "many PROPERTY statements in one macro", "many PROPERTY statements in one pin", "many LAYER blocks in one OBS", "many property definitions", "many words of an extension block on one line", "many words of an extension block, one per line", "one very long non-ASCII string value", "many VIA placements in one LAYER block"][shape as usize];
     let (pa, pb) = (crate::engine::child::scratch_path("c11.time.a.lef"), crate::engine::child::scratch_path("c11.time.b.lef"));
     std::fs::write(&pa, &a).map_err(|e| e.to_string())?;
     std::fs::write(&pb, &b).map_err(|e| e.to_string())?;
@@ -442,7 +450,7 @@ fn time_case(src: &mut Src, ctx: &mut Ctx) -> Result<(), String> {
 fn run(run: &mut Run) {
     engine::journal::set_hang_ms(30_000);
     run.rule("Base texts: 40 LEF texts rendered from generated libraries (half with lexical variation, a quarter with non-ASCII comments) + the repository's macro.lef. (i) every prefix at every character boundary; (ii) every single-token fault at every token (delete, duplicate, swap, replace by each of 27 keywords/numbers (incl. the extremes of the 96-bit decimal type)/punctuation/unterminated string); (ii-b) floods: each replacement token and 21 short phrases repeated 50 000 times at four places of a base text, read on a 2 MB stack; (iii) proptest-driven insertion of multi-byte, odd-whitespace and delimiter characters anywhere; (iv) token soup of keywords, numbers, names and arbitrary Unicode scalars; allocation scaling. Oracle: LefLibrary::open returns (panics caught; aborts and hangs caught by the supervising process with a CPU limit), also on the error-report path; an Ok library can be written and re-read without a crash. Non-trivial = faulted text differs from its base; distinct by hash of the text.");
-    run.assume("termination = returns before the hang watchdog (30 s in flight) / 20 s CPU in isolation; linear time checked as allocation volume at most doubling when the input doubles and thread CPU time (best of five / three) growing at most 64-fold (+50 ms) when the input grows 16-fold, a suspicious measurement being repeated up to three times, on thirteen text shapes");
+    run.assume("termination = returns before the hang watchdog (30 s in flight) / 20 s CPU in isolation; linear time checked as allocation volume at most doubling when the input doubles and thread CPU time (best of five / three) growing at most 64-fold (+50 ms) when the input grows 16-fold, a suspicious measurement being repeated up to three times, on fourteen text shapes");
     run.min_nontrivial = 1000;
     run.enumerate("prefixes", *prefix_table().last().unwrap(), &prefix_case);
     run.enumerate("token-faults", *fault_table().last().unwrap(), &token_fault_case);
@@ -450,7 +458,7 @@ fn run(run: &mut Run) {
     run.explore("odd-characters", run.tier.pick(150_000, 1_500_000), 16, &insertion_case);
     run.explore("token-soup", run.tier.pick(150_000, 1_500_000), 400, &soup_case);
     run.enumerate("alloc-scaling", run.tier.pick(4, 6), &scaling_case);
-    run.enumerate("time-scaling", 13, &time_case);
+    run.enumerate("time-scaling", 14, &time_case);
 }
 fn case(sub: &str) -> Option<Box<CaseFn<'static>>> {
     match sub {
